@@ -248,6 +248,9 @@ class Check:
         # disk space is limited: the harnesses' scratch directories (saved iterates, Interfile files, ...) are only needed
         # to replay a violation
         for d in glob.glob(os.path.join(OUT, self.prop.lower() + "*")):
+            other = "thorough" if self.tier == "quick" else "quick"
+            if other in os.path.basename(d) and self.tier not in os.path.basename(d):
+                continue    # belongs to a run of the other tier that may be in progress
             if os.path.isdir(d):
                 shutil.rmtree(d, ignore_errors=True)
             elif os.path.isfile(d) and os.path.getsize(d) > (4 << 20):
@@ -347,9 +350,17 @@ def run_differential(chk, prop, harness, tier, sanitize=False, extra_args=(), ct
     if r.returncode != 0:
         chk.violation("harness-abort", "harness %s aborted (exit %d): the implementation crashed or a sanitizer fired" % (harness, r.returncode),
                       r.stdout[-4000:], found_input=True)
-    if not os.path.exists(ops):
+    if not os.path.exists(ops) or os.path.getsize(ops) == 0:
+        # nothing was exercised: never report OK for that (e.g. the scratch files were removed by a concurrent run)
+        if r.returncode == 0:
+            chk.violation("harness-incomplete", "harness %s ended without writing any operation: nothing was checked" % harness,
+                          r.stdout[-2000:] or "no output", found_input=False)
         return dict(ops=0, mismatches=0)
     rc, err = run_driver(prop, ops, model)
+    if not os.path.exists(model) or not os.path.exists(impl):
+        chk.violation("harness-incomplete", "answer streams of %s are missing (impl: %s, model: %s): nothing was compared"
+                      % (harness, os.path.exists(impl), os.path.exists(model)), (err or "")[-2000:] or "no output", found_input=False)
+        return dict(ops=0, mismatches=0)
     ol = open(ops).read().splitlines()
     il = open(impl).read().splitlines()
     ml = open(model).read().splitlines()
@@ -378,6 +389,9 @@ def run_differential(chk, prop, harness, tier, sanitize=False, extra_args=(), ct
     of = impl + ".oracle"
     stats["oracle_checks"], stats["oracle_fails"] = 0, 0
     if os.path.exists(of):
+        if r.returncode == 0 and "ORACLE-DONE" not in open(of).read():
+            chk.violation("harness-incomplete", "oracle log of %s has no ORACLE-DONE line: the harness did not finish its oracle pass" % harness,
+                          open(of).read()[-2000:] or "empty", found_input=False)
         for l in open(of).read().splitlines():
             if l.startswith("ORACLE-FAIL"):
                 stats["oracle_fails"] += 1
